@@ -215,4 +215,129 @@ theorem peerEnd_eq_countP_le (h : SortedTies le eq l) (p : Nat) (hp : p < l.leng
   rw [hsplit, hall, hzero, List.length_take]
   omega
 
+/-! ### DENSE_RANK: peer boundaries = distinct tie classes before the row -/
+
+/-- first occurrences of the tie classes (the shape of `Spec.Win.distinctKeys`) -/
+def distinctBy (tied : α → α → Bool) : List α → List α
+  | [] => []
+  | k :: ks => k :: (distinctBy tied ks).filter (fun k' => !tied k' k)
+
+theorem mem_of_mem_distinctBy (tied : α → α → Bool) : ∀ (l : List α) (x : α), x ∈ distinctBy tied l → x ∈ l
+  | [], x, h => by simp [distinctBy] at h
+  | k :: ks, x, h => by
+    simp only [distinctBy, List.mem_cons, List.mem_filter] at h
+    rcases h with rfl | ⟨h, _⟩
+    · simp
+    · exact List.mem_cons_of_mem _ (mem_of_mem_distinctBy tied ks x h)
+
+/-- a block of mutually tied rows contributes exactly its first row -/
+theorem distinctBy_block (tied : α → α → Bool) (c : α) (hsymm : ∀ a b, tied a b = tied b a)
+    (htrans : ∀ a b d, tied a b = true → tied b d = true → tied a d = true) :
+    ∀ (B : List α) (b0 : α), (∀ x ∈ b0 :: B, tied x c = true) → distinctBy tied (b0 :: B) = [b0] := by
+  intro B b0 hB
+  simp only [distinctBy, List.cons.injEq, true_and, List.filter_eq_nil_iff]
+  intro x hx
+  have hxB : x ∈ B := mem_of_mem_distinctBy tied B x hx
+  have h1 := hB x (by simp [hxB])
+  have h2 := hB b0 (by simp)
+  have : tied x b0 = true := htrans x c b0 h1 (by rw [hsymm]; exact h2)
+  simp [this]
+
+/-- rows not tied with the block in front of it keep their representatives; the block adds one -/
+theorem distinctBy_append_block (tied : α → α → Bool) (c : α) (hsymm : ∀ a b, tied a b = tied b a)
+    (htrans : ∀ a b d, tied a b = true → tied b d = true → tied a d = true) (B : List α) (b0 : α)
+    (hB : ∀ x ∈ b0 :: B, tied x c = true) :
+    ∀ (A : List α), (∀ a ∈ A, tied a c = false) → distinctBy tied (A ++ b0 :: B) = distinctBy tied A ++ [b0]
+  | [], _ => by simpa [distinctBy] using distinctBy_block tied c hsymm htrans B b0 hB
+  | a :: A, hA => by
+    have ih := distinctBy_append_block tied c hsymm htrans B b0 hB A (fun x hx => hA x (by simp [hx]))
+    simp only [List.cons_append, distinctBy, ih, List.filter_append]
+    have hb0 : tied b0 a = false := by
+      by_cases h : tied b0 a = true
+      · have h2 := hB b0 (by simp)
+        have : tied a c = true := htrans a b0 c (by rw [hsymm]; exact h) h2
+        rw [hA a (by simp)] at this; cases this
+      · simpa using h
+    simp [hb0]
+
+theorem filter_eq_take_of_prefix (q : α → Bool) (l : List α) (s : Nat) (hs : s ≤ l.length)
+    (hpre : ∀ j (h : j < l.length), j < s → q l[j] = true) (hpost : ∀ j (h : j < l.length), s ≤ j → q l[j] = false) :
+    l.filter q = l.take s := by
+  conv => lhs; rw [← List.take_append_drop s l]
+  rw [List.filter_append]
+  have h1 : (l.take s).filter q = l.take s := by
+    rw [List.filter_eq_self]
+    intro x hx
+    obtain ⟨j, hj, rfl⟩ := List.mem_take_iff_getElem.1 hx
+    exact hpre j (by omega) (by omega)
+  have h2 : (l.drop s).filter q = [] := by
+    rw [List.filter_eq_nil_iff]
+    intro x hx
+    obtain ⟨j, hj, rfl⟩ := List.mem_drop_iff_getElem.1 hx
+    have := hpost (s + j) (by omega) (by omega)
+    simp [this]
+  rw [h1, h2, List.append_nil]
+
+theorem boundariesIn_succ (l : List α) (p : Nat) :
+    boundariesIn eq l 0 (p + 1) = boundariesIn eq l 0 p + (if eq (l.getD p default) (l.getD (p + 1) default) then 0 else 1) := by
+  unfold boundariesIn
+  simp only [Nat.zero_add, Nat.sub_zero]
+  rw [List.range'_concat, List.filter_append, List.length_append]
+  simp only [List.filter_cons, List.filter_nil]
+  have e : 1 + 1 * p - 1 = p := by omega
+  have e2 : 1 + 1 * p = p + 1 := by omega
+  rw [e, e2]
+  cases eq (l.getD p default) (l.getD (p + 1) default) <;> simp
+
+/-- DENSE_RANK − 1: the number of peer boundaries of the partition up to row `p` is the number of distinct tie classes among
+    the rows before the peer range of `p` -/
+theorem boundariesIn_eq_distinct (h : SortedTies le eq l) (p : Nat) (hp : p < l.length) :
+    boundariesIn eq l 0 p = (distinctBy eq (l.take (peerStart eq l p))).length := by
+  have hsymm : ∀ a b, eq a b = eq b a := by intro a b; rw [h.eq_iff, h.eq_iff, Bool.and_comm]
+  have htrans : ∀ a b d, eq a b = true → eq b d = true → eq a d = true := by
+    intro a b d h1 h2
+    rw [h.eq_iff] at h1 h2 ⊢
+    simp only [Bool.and_eq_true] at h1 h2 ⊢
+    exact ⟨h.trans _ _ _ h1.1 h2.1, h.trans _ _ _ h2.2 h1.2⟩
+  induction p with
+  | zero => simp [boundariesIn, peerStart, distinctBy]
+  | succ p ih =>
+    have ihp := ih (by omega)
+    rw [boundariesIn_succ]
+    by_cases he : eq (l.getD p default) (l.getD (p + 1) default) = true
+    · simp only [he, if_true, Nat.add_zero, peerStart]
+      exact ihp
+    · have he' : eq (l.getD p default) (l.getD (p + 1) default) = false := by simpa using he
+      simp only [he', Bool.false_eq_true, if_false, peerStart]
+      rw [ihp]
+      -- take (p+1) l = take s l ++ block, the block = rows s … p, all tied with row p
+      have hsp := peerStart_le (eq := eq) (l := l) p
+      have hsplit : l.take (p + 1) = l.take (peerStart eq l p) ++ (l.drop (peerStart eq l p)).take (p + 1 - peerStart eq l p) := by
+        have := List.take_append_drop (peerStart eq l p) (l.take (p + 1))
+        rw [List.take_take, Nat.min_eq_left (by omega), List.drop_take] at this
+        exact this.symm
+      have hblock : (l.drop (peerStart eq l p)).take (p + 1 - peerStart eq l p) ≠ [] := by
+        intro hnil
+        have := congrArg List.length hnil
+        simp at this; omega
+      obtain ⟨b0, B, hB⟩ := List.exists_cons_of_ne_nil hblock
+      rw [hsplit, hB]
+      have hBt : ∀ x ∈ b0 :: B, eq x (l.getD p default) = true := by
+        intro x hx
+        rw [← hB] at hx
+        obtain ⟨j, hj, rfl⟩ := List.mem_take_iff_getElem.1 hx
+        simp only [List.getElem_drop]
+        have hj' : j < p + 1 - peerStart eq l p := by simp at hj; omega
+        have ht := peerStart_tied h p (peerStart eq l p + j) (by omega) (by omega)
+        rw [getD_eq l _ (by omega)] at ht
+        rw [h.eq_iff, ht.1, ht.2]; rfl
+      have hAt : ∀ a ∈ l.take (peerStart eq l p), eq a (l.getD p default) = false := by
+        intro a ha
+        obtain ⟨j, hj, rfl⟩ := List.mem_take_iff_getElem.1 ha
+        have hlt := lt_of_lt_peerStart h p (by omega) j (by omega)
+        rw [getD_eq l j (by omega)] at hlt
+        rw [h.eq_iff, hlt.2]; simp
+      rw [distinctBy_append_block eq (l.getD p default) hsymm htrans B b0 hBt _ hAt]
+      simp
+
 end IQE.Lemmas.WindowPeers
